@@ -50,13 +50,24 @@ pub fn run(ctx: &Ctx) -> Outcome {
         let keys = keys(seed, cfg.key_len);
         for key in keys.iter().take(if sweep { 1 } else { tier.pick(1, 2) }) {
             for (ivn, iv) in iv_variants(seed, d.iv_len).into_iter().skip(if sweep { 2 } else { 0 }) {
-                for (dn, data) in data_variants(seed, 0xC02, nmax * d.mbs).into_iter().skip(if sweep { 2 } else { 0 }) {
-                    let pre = dirty(nmax * d.mbs);
-                    for n in 0..=nmax {
+                // long calls (past 32, 64, 256 blocks) for small blocks: one call in each form, and a single block before / after
+                let longs: Vec<usize> = if !sweep && cfg.bs <= 16 { vec![33, 65, 257] } else { vec![] };
+                let ndata = nmax.max(longs.last().copied().unwrap_or(0));
+                for (dn, data) in data_variants(seed, 0xC02, ndata * d.mbs).into_iter().skip(if sweep { 2 } else { 0 }) {
+                    let pre = dirty(ndata * d.mbs);
+                    for n in (0..=nmax).chain(longs.iter().copied()) {
                         let inp = &data[..n * d.mbs];
                         let want = bm_ref(cfg, d, key, &iv, inp);
                         rep.outcome(&want.out);
-                        for sched in schedules(n) {
+                        let scheds = if n <= nmax {
+                            schedules(n)
+                        } else {
+                            let mut v: Vec<Vec<Piece>> = KINDS.iter().map(|&k| vec![Piece { n, kind: k, single: false }]).collect();
+                            v.push(vec![Piece { n: 1, kind: Kind::InPlace, single: true }, Piece { n: n - 1, kind: Kind::B2b, single: false }]);
+                            v.push(vec![Piece { n: n - 1, kind: Kind::InPlace, single: false }, Piece { n: 1, kind: Kind::B2b, single: true }]);
+                            v
+                        };
+                        for sched in scheds {
                             rep.case(|| {
                                 let mut obj = rec::bm(cfg, d, key, &iv);
                                 ensure!(obj.iv_state() == want.states[0], format!("initial_state/{}-{}", d.mode, d.dir.s()), "iv_state() of a fresh {} is not the IV", d.ty);
@@ -75,7 +86,7 @@ pub fn run(ctx: &Ctx) -> Outcome {
                         }
                         // the same through a caller-supplied closure passed to *_with_backend (full groups via *_par_blocks,
                         // remainder block by block or via *_tail_blocks if non-empty), as one call and as every two-way split
-                        for mode in [1u8, 2] {
+                        for mode in [1u8, 2, 3, 4, 5, 6] {
                             for cut in 0..n.max(1) {
                                 rep.case(|| {
                                     let mut obj = rec::bm(cfg, d, key, &iv);
